@@ -142,7 +142,8 @@ pub fn gen_char_def(rng: &mut Rng, want_space: Option<bool>) -> (String, Vec<Str
     if has_space {
         cats.push("SPACE".into());
     }
-    let pool = ["ALPHA", "NUMERIC", "KANA", "KANJI", "SYM"];
+    // (KANJINUMERIC: the concatenation of two other names, as in the stock dictionaries)
+    let pool = ["ALPHA", "NUMERIC", "KANA", "KANJI", "SYM", "KANJINUMERIC"];
     let extra = rng.usize(pool.len() + 1);
     let mut idx: Vec<usize> = (0..pool.len()).collect();
     rng.shuffle(&mut idx);
@@ -220,6 +221,11 @@ pub fn gen_char_def(rng: &mut Rng, want_space: Option<bool>) -> (String, Vec<Str
             }
             if rng.chance(1, 8) {
                 l.push_str(" # comment");
+            } else if rng.chance(1, 12) {
+                // a commented-out category
+                l.push_str(" # ");
+                let c = rng.pick(cats.as_slice()).clone();
+                l.push_str(&c);
             }
             lines.push(l);
         }
@@ -366,6 +372,9 @@ pub fn gen_bigram(rng: &mut Rng, k: usize, num_right: usize, num_left: usize, bi
             } else {
                 -m
             }
+        } else if big && rng.chance(1, 8) {
+            // exactly at the ends of the 16-bit range
+            *rng.pick(&[-32768i64, -32768, 32767, -32767])
         } else if big {
             let m = rng.range(5000, 16000);
             if ((p / 8) % 2 == 0) != rng.chance(1, 6) {
